@@ -101,10 +101,71 @@ def canon_polyline(pl):
     return {"vertices": [[float(c) for c in p] for p in pl.vertices], "edges": [[to_int(a), to_int(b)] for a, b in pl.edges]}
 
 
+def pre_step(M, P, mesh, st):
+    """One step of the scenario played on the mesh before the queries (the answers must depend on the CURRENT mesh only)."""
+    op = st["op"]
+    if op == "edge_length":          # a geometric attribute computed (and stored) before the geometry is edited
+        M.attributes.edge_length(mesh, name=st.get("name", "length"), persistent=st.get("persistent", True))
+    elif op == "attr":               # a pre-existing attribute with a colliding name and arbitrary values
+        cont = getattr(mesh, st["on"])
+        a = cont.create_attribute(st["name"], float)
+        vals = st["values"]
+        for i in range(len(cont)):
+            a[i] = float(vals[i % len(vals)])
+    elif op == "move":               # edit the vertex coordinates in place
+        for i, p in enumerate(st["V"]):
+            mesh.vertices[i] = M.Vec(*[float(c) for c in p])
+    elif op == "scale":
+        sx = st["s"]
+        for i in range(len(mesh.vertices)):
+            p = mesh.vertices[i]
+            mesh.vertices[i] = M.Vec(float(p[0]) * sx[0], float(p[1]) * sx[1], float(p[2]) * sx[2])
+    elif op == "warm":               # a query issued earlier in the session (fills caches)
+        nn = len(mesh.vertices)
+        P.shortest_path(mesh, st.get("start", 0) % nn, [st.get("target", nn - 1) % nn], st.get("weights", "length"))
+    else:
+        raise ValueError(op)
+
+
 def run_case(case):
     import mouette as M
     from mouette.processing import paths as P
     mesh = build(case["build"])
+    pre_errors = []
+    for st in case.get("pre") or []:
+        try:
+            signal.alarm(QUERY_TIMEOUT)
+            pre_step(M, P, mesh, st)
+        except QueryTimeout:
+            pre_errors.append([st["op"], "timeout"])
+        except Exception as ex:  # noqa
+            pre_errors.append([st["op"], "%s: %s" % (type(ex).__name__, ex)])
+        finally:
+            signal.alarm(0)
+    # ambient objects: other priority queues of the session, holding pending items, kept alive during the queries
+    ambient = []
+    if case.get("ambient"):
+        from mouette.utils import PriorityQueue
+        for items in case["ambient"]:
+            aq = PriorityQueue()
+            for x, pr in items:
+                aq.push(x, pr)
+            ambient.append(aq)
+
+    def plain(x):
+        try:
+            return to_int(x)
+        except Exception:  # noqa
+            return repr(x)
+
+    def ambient_state():
+        out = []
+        for aq in ambient:
+            try:
+                out.append(sorted(([float(it.priority), plain(it.x)] for it in aq.data), key=lambda t: (t[0], repr(t[1]))))
+            except Exception as ex:  # noqa
+                out.append(["unreadable", "%s: %s" % (type(ex).__name__, ex)])
+        return out
     n = len(mesh.vertices)
     edges = [[to_int(a), to_int(b)] for (a, b) in mesh.edges]
     adj = [[to_int(x) for x in mesh.connectivity.vertex_to_vertices(v)] for v in range(n)]
@@ -130,6 +191,7 @@ def run_case(case):
                 else:
                     weights[e] = wnum[e] / den
     obs = []
+    amb_after = []
     queries = case.get("queries")
     if not queries and "qseed" in case and n > 0 and edges:
         # queries are drawn here, once the shape of the mesh is known, by the check's own generator (deterministic in qseed)
@@ -184,7 +246,8 @@ def run_case(case):
             obs.append(canon_exc(ex))
         finally:
             signal.alarm(0)
-    return {"type": type(mesh).__name__, "n": n, "edges": edges, "adj": adj, "border": border, "coords": coords,
+        amb_after.append(ambient_state())
+    return {"pre_errors": pre_errors, "ambient_after": amb_after, "type": type(mesh).__name__, "n": n, "edges": edges, "adj": adj, "border": border, "coords": coords,
             "wnum": wnum, "obs": obs, "queries": queries}
 
 
@@ -201,7 +264,7 @@ def main():
             out.append(run_case(case))
         except Exception as ex:  # noqa
             out.append({"error": "%s: %s" % (type(ex).__name__, ex), "trace": traceback.format_exc()[-800:]})
-    print("@@JSON " + json.dumps({"cases": out}))
+    print("@@JSON " + json.dumps({"cases": out}, default=repr))
 
 
 if __name__ == "__main__":
